@@ -64,7 +64,7 @@ let () =
         | Some Server.SPanic -> "panic"
         | Some (Server.SRedirect l) -> "301:loc:" ^ hex_of_bytes l
         | Some (Server.SProxy (_, _, _)) -> "proxy"
-        | Some (Server.SWsProxy _) -> "proxy"
+        | Some (Server.SWsProxy t) -> "ws:" ^ hex_of_bytes t
         | Some Server.SClosed -> "noresp"
         | Some (Server.SStatic (StaticFs.R200 (b, ct))) ->
           "200:body:" ^ hex_of_bytes b ^ (if with_ct then ":ct:" ^ (match ct with Some c -> hex_of_bytes c | None -> "none") else "")
